@@ -155,6 +155,20 @@ Theorem C12_stream_context : forall units t cs ctx0 pre,
 Proof. exact stream_context. Qed.
 Print Assumptions C12_stream_context.
 
+(* ... for instance, last writer wins holds of streams: an SPS NAL that parses alone to x, followed by units none of which is
+   accepted as an SPS with x's id, leaves x under that id after the whole chunked stream - whatever came before it *)
+Theorem C12_stream_sps_last_writer_wins : forall before n b r after x t cs ctx0 pre,
+  let u := b :: r in
+  let units := (before ++ (n, u) :: after)%list in
+  Forall (fun v => unit_ok (snd v)) units -> (t = 0%nat \/ 3 <= t)%nat ->
+  Forall (fun v => exists p, unescape (skipn 1 (snd v)) = Some p) units ->
+  nal_header_new b = Some b -> nal_unit_type_id b = 7 -> sps_from_bits (nal_bitsrc u) = OK x ->
+  Forall (fun v => forall y, sps_from_bits (nal_bitsrc (snd v)) = OK y -> seq_parameter_set_id y <> seq_parameter_set_id x) after ->
+  concat cs = annexb_encode units t ->
+  sps_by_id (ps_ctx (fst (pipeline_run ctx0 [] pre (map APush cs ++ [AReset])))) (seq_parameter_set_id x) = Some x.
+Proof. exact stream_sps_last_writer_wins. Qed.
+Print Assumptions C12_stream_sps_last_writer_wins.
+
 (* From the structures to the context, through every layer at once: an SPS and a PPS referring to it, each encoded per
    7.3.2.1 / 7.3.2.2, completed by rbsp trailing bits, escaped (7.4.1), given the header bytes 0x67 / 0x68, serialised as
    an Annex B stream (any start-code lengths / zero padding) and pushed in ANY pieces into the pipeline starting from any
